@@ -421,7 +421,7 @@ def native_replay(q, run_dir, wdir, vals, form=None, tag="r"):
     if rc != 0:
         return None, "native build failed: " + out[-2000:]
     rc, out, _ = run_cmd([exe], 120)
-    if "CHECK-FAILED" in out or "AddressSanitizer" in out or "runtime error:" in out:
+    if rc == 101 or "CHECK-FAILED" in out or "AddressSanitizer" in out or "runtime error:" in out:
         return True, out
     if rc == 0:
         return False, out
